@@ -22,6 +22,8 @@ enum Extra {
     BadVersion(usize),
     /// a WebSocket Ping from the server before the reply at `pos` (WebSocketClient; ignored by the correlation)
     Ping,
+    /// a frame with an id no call uses that is itself an ERROR response with this code (dropped like any unknown id)
+    UnknownErr(u32),
 }
 
 #[derive(Clone, Debug)]
@@ -205,6 +207,19 @@ fn scenarios(tier: Tier) -> Vec<Scenario> {
             }
         }
     }
+    // stray frames (unknown id) that are themselves error responses, every error-code class
+    for ec in [1u32, 2, 3, 4, 5, 6, 7, 8, 9, 10, 4096, u32::MAX] {
+        for n in 1..=2usize {
+            for perm in permutations(n) {
+                for pos in 0..=n {
+                    for kind in [Kind::Async, Kind::Ws] {
+                        v.push(Scenario::Perm { kind, n, perm: perm.clone(), extra: Extra::UnknownErr(ec), pos, burst: false });
+                    }
+                    v.push(Scenario::PermBlocking { n, perm: perm.clone(), extra: Extra::UnknownErr(ec), pos });
+                }
+            }
+        }
+    }
     for n in 1..=3usize {
         for perm in permutations(n) {
             for j in 0..n {
@@ -312,6 +327,16 @@ async fn run_perm_sub(kind: Kind, n: usize, perm: &[usize], extra: Extra, pos: u
             flags |= 8192;
         }
         Extra::Ping => flags |= 8192,
+        Extra::UnknownErr(ec) => {
+            let mut f = clients::reply(0xDEAD_BEEF);
+            f.h.ec = ec;
+            f.h.body_format = crate::frames::FMT_UTF8;
+            f.body = b"stray error frame".to_vec();
+            f.h.body_length = f.body.len() as u64;
+            f.h.length = 48 + f.h.query_length + f.h.body_length;
+            script.insert(pos.min(script.len()), f);
+            flags |= 8192;
+        }
     }
     if perm.windows(2).any(|w| w[0] > w[1]) {
         flags |= 1; // non-identity order
@@ -662,6 +687,15 @@ fn run_perm_blocking(n: usize, perm: &[usize], extra: Extra, pos: usize, batch: 
         Extra::None => {}
         Extra::Unknown => script.insert(pos.min(script.len()), clients::reply(0xDEAD_BEEF)),
         Extra::BadVersion(_) | Extra::Ping => {}
+        Extra::UnknownErr(ec) => {
+            let mut f = clients::reply(0xDEAD_BEEF);
+            f.h.ec = ec;
+            f.h.body_format = crate::frames::FMT_UTF8;
+            f.body = b"stray error frame".to_vec();
+            f.h.body_length = f.body.len() as u64;
+            f.h.length = 48 + f.h.query_length + f.h.body_length;
+            script.insert(pos.min(script.len()), f);
+        }
         Extra::Dup(j) => script.insert(pos.min(script.len()), clients::reply(ids[&tags[j]])),
         Extra::NotifyReuse(j) => {
             script.insert(pos.min(script.len()), clients::notify_frame(ids[&tags[j]], 7));
@@ -1131,7 +1165,7 @@ pub fn run(tier: Tier) -> ! {
             "websocket_client_early_reply_scenarios": g(12),
             "bad_version_reply_or_ping_scenarios": g(13),
         },
-        "rule": "blocking Client over loopback TCP with n caller threads (n <= 4, thorough 5): every reply permutation x extra frame x position, and batch_json under every reply order; for both tokio clients over an in-memory stream on a paused single-threaded runtime: n concurrent calls, every permutation of the n replies, one extra frame (unknown id / duplicate of reply j / notify reusing in-flight id j) at every position, delivered one by one or in one burst; batch_json under every reply order; AsyncClient replies injected while the request's write is blocked after 48+k bytes, WebSocketClient replies injected while the request's WebSocket frame is blocked after k bytes (the peer unmasks the id from the partial frame); n <= 3 calls with the reply to call j carrying protocol version 2 (call j reports an error, the others their own replies) and, WebSocketClient, a server Ping at every position; a caller (call or notify, on its own OS thread) parked inside its own call at body serialization while another call is issued and answered / left pending / timed out, then resumed (or refused locally as larger than the WebSocket client's assumed peer limit), then a third call, the pending ones answered in every order: request ids on the wire pairwise distinct and every call gets its own response; WebSocketClient: the notify reusing an in-flight id (n <= 3, every reply order, victim and position) with the subscription unsubscribed / its receiver dropped / re-subscribed / re-subscribed over a stale slot",
+        "rule": "blocking Client over loopback TCP with n caller threads (n <= 4, thorough 5): every reply permutation x extra frame x position, and batch_json under every reply order; for both tokio clients over an in-memory stream on a paused single-threaded runtime: n concurrent calls, every permutation of the n replies, one extra frame (unknown id / duplicate of reply j / notify reusing in-flight id j) at every position, delivered one by one or in one burst; batch_json under every reply order; AsyncClient replies injected while the request's write is blocked after 48+k bytes, WebSocketClient replies injected while the request's WebSocket frame is blocked after k bytes (the peer unmasks the id from the partial frame); n <= 3 calls with the reply to call j carrying protocol version 2 (call j reports an error, the others their own replies) and, WebSocketClient, a server Ping at every position; stray error responses (unknown id, every error-code class) at every position for n <= 2 on all three clients; a caller (call or notify, on its own OS thread) parked inside its own call at body serialization while another call is issued and answered / left pending / timed out, then resumed (or refused locally as larger than the WebSocket client's assumed peer limit), then a third call, the pending ones answered in every order: request ids on the wire pairwise distinct and every call gets its own response; WebSocketClient: the notify reusing an in-flight id (n <= 3, every reply order, victim and position) with the subscription unsubscribed / its receiver dropped / re-subscribed / re-subscribed over a stale slot",
     });
     ctx.finish(
         "model_checking",
